@@ -6,6 +6,7 @@ import random
 import numpy as np
 
 from .. import gen, impl, oracle, progs, ser, stream
+from . import c01_check
 
 ID = "C01"
 LEVEL = "proof"
@@ -71,9 +72,39 @@ THEOREMS = [
     "SymmModel.C01.alignAxes_valid",
     "SymmModel.C01.OpAll.preserves_valid",
     "SymmModel.C01.Prog.preserves_valid_ops",
-    "SymmModel.C01.Prog.preserves_valid_all"
+    "SymmModel.C01.Prog.preserves_valid_all",
+    "SymmModel.C01.rindex_check_ok_iff",
+    "SymmModel.C01.checkBlock_ok_iff",
+    "SymmModel.C01.rarr_check_ok_iff",
+    "SymmModel.C01.wfB_iff_check_and_unaudited",
+    "SymmModel.C01.validB_iff_check_and_unaudited",
+    "SymmModel.C01.validB_implies_check_ok",
+    "SymmModel.C01.check_ok_and_unaudited_implies_validB",
+    "SymmModel.C01.check_ok_implies_audited",
+    "SymmModel.C01.audit_misses_invalid_table_charge",
+    "SymmModel.C01.audit_misses_invalid_total_charge",
+    "SymmModel.C01.audit_misses_sector_too_long",
+    "SymmModel.C01.audit_misses_sector_too_short",
+    "SymmModel.C01.audit_misses_block_rank_too_small",
+    "SymmModel.C01.audit_misses_block_rank_too_large",
+    "SymmModel.C01.audit_misses_sub_index_table",
+    "SymmModel.C01.audit_misses_extents_partition",
+    "SymmModel.C01.audit_misses_extents_key",
+    "SymmModel.C01.audit_misses_extents_subsector",
+    "SymmModel.C01.audit_misses_phase_table",
+    "SymmModel.C01.audit_misses_label_parity",
+    "SymmModel.C01.audit_reads_nothing_fermionic",
+    "SymmModel.C01.audit_looks_at_finiteness",
+    "SymmModel.C01.valid_not_aligned",
+    "SymmModel.C01.vec_check_empty_and_rank2",
+    "SymmModel.C01.dictsDontConflict_symm",
+    "SymmModel.C01.matchesE_symm_plain",
+    "SymmModel.C01.matches_implies_agree",
+    "SymmModel.C01.checkWith_implies_contractibleCommon",
+    "SymmModel.C01.matches_not_contractibleB",
+    "SymmModel.C01.checkWith_ignores_axes_length"
 ]
-LEAN_FILES = ["SymmModel.Props.C01", "SymmModel.Proofs.ValidLemmas", "SymmModel.Proofs.ValidOps", "SymmModel.Proofs.ValidTdot", "SymmModel.Proofs.ValidMore", "SymmModel.Proofs.ValidTdotF", "SymmModel.Proofs.ValidLinalg", "SymmModel.Proofs.ValidFuse", "SymmModel.Proofs.ValidFuse2", "SymmModel.Proofs.ValidFuseF", "SymmModel.Proofs.ValidTdotFused", "SymmModel.Proofs.ValidMisc", "SymmModel.Proofs.ValidProg", "SymmModel.Props.C01b", "SymmModel.Props.C01All", "SymmModel.Proofs.ValidMore2Construct", "SymmModel.Proofs.ValidMore2Concat", "SymmModel.Proofs.ValidMore2Einsum", "SymmModel.Proofs.ValidMore2Reshape", "SymmModel.Proofs.ValidMore2Cert", "SymmModel.Proofs.ValidMore2Linalg", "SymmModel.Proofs.ValidMore2Prog"]
+LEAN_FILES = ["SymmModel.Props.C01", "SymmModel.Proofs.ValidLemmas", "SymmModel.Proofs.ValidOps", "SymmModel.Proofs.ValidTdot", "SymmModel.Proofs.ValidMore", "SymmModel.Proofs.ValidTdotF", "SymmModel.Proofs.ValidLinalg", "SymmModel.Proofs.ValidFuse", "SymmModel.Proofs.ValidFuse2", "SymmModel.Proofs.ValidFuseF", "SymmModel.Proofs.ValidTdotFused", "SymmModel.Proofs.ValidMisc", "SymmModel.Proofs.ValidProg", "SymmModel.Props.C01b", "SymmModel.Props.C01All", "SymmModel.Proofs.ValidMore2Construct", "SymmModel.Proofs.ValidMore2Concat", "SymmModel.Proofs.ValidMore2Einsum", "SymmModel.Proofs.ValidMore2Reshape", "SymmModel.Proofs.ValidMore2Cert", "SymmModel.Proofs.ValidMore2Linalg", "SymmModel.Proofs.ValidMore2Prog", "SymmModel.Props.C01c", "SymmModel.Proofs.CheckLemmas", "SymmModel.Model.Check"]
 PLANNED = []
 RULE = ("random programs (length <= 6) over every public operation incl. reshape and the decompositions, all "
         "symmetries (Z4 and generic classes included), abelian and fermionic, sparse, pending signs, odd charges; "
@@ -81,12 +112,12 @@ RULE = ("random programs (length <= 6) over every public operation incl. reshape
         "sub-index tables) and judged by the Lean predicate Arr.validB (the verdict), and the programs are diffed "
         "against the Lean model. non-trivial: >= 2 blocks and >= 1 operation that re-keys sectors"
         '; twin histories (same tables under Z2/U1/Z4) and twice-fused, conjugated, twice-unfused arrays are monitored as well')
-ANCHORS = {"abelian_core.py": ["is_valid_sector", "check", "_tensordot_blockwise", "calc_fuse_block_info",
+ANCHORS = {"abelian_core.py": ["is_valid_sector", "check", "check_chargemaps_aligned", "check_with", "matches", "dicts_dont_conflict", "_tensordot_blockwise", "calc_fuse_block_info",
                                "drop_misaligned_sectors", "expand_dims", "squeeze", "unfuse", "reshape"],
            "fermionic_core.py": ["_map_blocks", "transpose", "resolve_combined_oddpos", "conj", "dagger"],
            "linalg.py": ["qr", "svd", "svd_truncated", "eigh", "solve"],
            "block_core.py": ["_binary_blockwise_op"]}
-ASSUMPTIONS = ["float results of LAPACK are serialised structure-only (validity does not depend on values)"]
+ASSUMPTIONS = ["float results of LAPACK are serialised structure-only (validity does not depend on values)"] + list(c01_check.ASSUMPTIONS_CHECK if isinstance(c01_check.ASSUMPTIONS_CHECK, (list, tuple)) else [c01_check.ASSUMPTIONS_CHECK])
 
 MODEL_STOPS = {"svd_truncated"}
 REKEY = {"transpose", "fuse", "unfuse", "unfuse_all", "tensordot", "einsum", "squeeze", "expand_dims", "dagger",
@@ -409,7 +440,11 @@ def run(ctx):
             ctx.correspondence_broken(
                 "monitor:validB-vs-python-validity",
                 json.dumps(dict(lean_ok=lean_ok, lean_reason=reason, python=pyv, op=op, array=enc))[:4000])
+    # (c) the library's own debug-mode audit (check / check_with / matches ...) against its literal Lean model
+    c01_check.run_c01_check(ctx)
 
 
 def replay(ctx, payload):
+    if payload.get("case", {}).get("kind") == "libcheck":
+        return c01_check.replay_c01_check(ctx, payload)
     return stream.replay(ctx, payload, canon_kw=dict(drop_zero=True))
